@@ -112,6 +112,21 @@ pub fn corr(ctx: &mut Ctx) {
                 }
                 if p2.get_b().to_bits() != b.to_bits() || p2.get_a().to_bits() != a.to_bits() {
                     ctx.count("float off by 1ulp after reload");
+                } else {
+                    // same parameters => same object: every field (Debug shows all of them) and the behaviour that
+                    // depends on the parameters must be those of the object that was dumped
+                    if format!("{:?}", p2) != format!("{:?}", p) {
+                        ctx.oracle_failure(serde_json::json!({"kind":"impl_violates_property","what":"reloaded parameters differ from the dumped ones in a field not shown by the getters","dumped":format!("{:?}",p),"reloaded":format!("{:?}",p2)}));
+                    }
+                    for jac in [0.0f64, 0.05, 0.5, 1.0] {
+                        let r1 = catch(|| p.get_jaccard_bounds(jac)).map(|(x, y)| (x.to_bits(), y.to_bits()));
+                        let r2 = catch(|| p2.get_jaccard_bounds(jac)).map(|(x, y)| (x.to_bits(), y.to_bits()));
+                        if r1.is_ok() != r2.is_ok() || (r1.is_ok() && r1 != r2) {
+                            ctx.oracle_failure(serde_json::json!({"kind":"impl_violates_property","what":"get_jaccard_bounds of the reloaded parameters differs from that of the dumped ones","b":b,"jac":jac,
+                                "dumped":format!("{:?}",r1),"reloaded":format!("{:?}",r2)}));
+                            break;
+                        }
+                    }
                 }
             }
             _ => ctx.oracle_failure(serde_json::json!({"kind":"impl_violates_property","what":"reload of an intact file failed","file":String::from_utf8_lossy(&bytes)})),
